@@ -23,6 +23,9 @@ def dispatch(prop, tier):
     if prop == 'C14':
         from harness.checks import expr
         return expr.run_c14(tier)
+    if prop in ('C03', 'C05', 'C07', 'C18'):
+        from harness.checks import cppfull
+        return getattr(cppfull, 'run_' + prop.lower())(tier)
     raise core.Infra('no check registered for %s' % prop)
 
 
